@@ -8,7 +8,7 @@
                      with `v[0] ∈ {2,3}`
   Theorems are stated for every `KeyOps` satisfying explicitly named hypotheses. The oracle runs the
   model with `mathKeys`: the same two functions written as plain arithmetic mod p on the raw 256-bit
-  coordinate values (what the 5x52 field code computes up to representation: `SetB32` does not reduce,
+  coordinate values (what the 5x52 field code computes up to representation: `set_b32_limit` range check,
   `IsValid` compares normalised values, `Sqrt` is `a^((p+1)/4)`, `GetPublicKey` normalises).
 -/
 import GocoinV.Base.Bytes
@@ -91,14 +91,23 @@ def powModGo (m : Nat) : Nat → Nat → Nat → Nat → Nat
 
 def powMod (b e m : Nat) : Nat := powModGo m 256 (b % m) e (1 % m)
 
-/-- `ParsePubkey(k) && IsValid()` for `k = 04 ‖ X ‖ Y`: `Y² ≡ X³ + 7 (mod p)` on the RAW values
-    (nothing in `ParsePubkey` rejects `X ≥ p` or `Y ≥ p`). -/
+/-- `ParsePubkey(k) && IsValid()` for `k = 04 ‖ X ‖ Y` (lib/secp256k1/xy.go after commit 06ea4281):
+    both raw coordinates below p (`set_b32_limit`) and `Y² ≡ X³ + 7 (mod p)`. -/
 def mathValid65 (k : Bytes) : Bool :=
+  let x := beVal ((k.drop 1).take 32)
+  let y := beVal ((k.drop 33).take 32)
+  x < P && y < P && (y * y) % P == (x * x * x + 7) % P
+
+/-- the same test WITHOUT the range check — `ParsePubkey` as it was before commit 06ea4281
+    (`SetB32` does not reduce, `IsValid` compares normalised values). Kept to state why the range
+    check is needed for losslessness (Props.C10.script_roundtrip_needs_canonical). -/
+def legacyValid65 (k : Bytes) : Bool :=
   let x := beVal ((k.drop 1).take 32)
   let y := beVal ((k.drop 33).take 32)
   (y * y) % P == (x * x * x + 7) % P
 
-/-- `ParsePubkey(v)` (= `SetXO(X, v[0]==3)`) then `GetPublicKey(out[0:65])` -/
+/-- `ParsePubkey(v)` (= `SetXO(X, v[0]==3)`; its result is ignored by `DecompressScript`) then
+    `GetPublicKey(out[0:65])` -/
 def mathExpand33 (v : Bytes) : Bytes :=
   let x := beVal ((v.drop 1).take 32)
   let c := (x * x * x + 7) % P
@@ -107,5 +116,6 @@ def mathExpand33 (v : Bytes) : Bytes :=
   0x04 :: (beBytes 32 (x % P) ++ beBytes 32 y)
 
 def mathKeys : KeyOps := { valid65 := mathValid65, expand33 := mathExpand33 }
+def legacyKeys : KeyOps := { valid65 := legacyValid65, expand33 := mathExpand33 }
 
 end GocoinV.ScriptCompress
